@@ -18,6 +18,17 @@ from contracts import common as C
 
 PROPERTY = "C05"
 LEVEL = "proof"
+MANIFEST = dict(
+    text=("Deductive proof of the tolerance contract of every flat membership predicate on the real bodies with a symbolic eps: Point in Plane / Segment / HalfLine, Vector.parallel (hence Point in Line), Vector.orthogonal, "
+          "Vector/Point ==: 'exact (or within eps/1000) => True, violated by the 4 eps margin => False', boundary points (end points, t = 0, t = 1) in the exact-true region; from these the exact contracts "
+          "'admitted => (x in S <=> denotation)' used everywhere else. Line in Plane and the composite cases Segment in Line/Plane/Segment/HalfLine, HalfLine in Line/Plane are proved against universal witnesses "
+          "(True => every point contained; False => a named point of x is outside)."),
+    note=("A1, A5. Point in ConvexPolygon / ConvexPolyhedron, HalfLine in HalfLine and ConvexPolygon in Plane/ConvexPolyhedron are covered by the labelled bounded stand-in (membership catalogue with exact oracle) in this revision, not by proof."),
+    design_ref="DESIGN.md section 9 (C05), section 4",
+)
+EXPLANATION = "tolerance predicates proved with symbolic eps (SCALAR world, ghost scalars for |u|^2, u.v); composite membership over symbolic coordinates"
+BOUNDED_ONLY = ["Geometry3D.geometry.polygon:ConvexPolygon.__contains__", "Geometry3D.geometry.polyhedron:ConvexPolyhedron.__contains__", "Geometry3D.geometry.halfline:HalfLine.__contains__(HalfLine)",
+                "Geometry3D.geometry.polygon:ConvexPolygon.in_"]
 ASSUMES = ["A1", "A2", "A5", "A6"]
 T_GET_EPS = "Geometry3D.utils.constant:get_eps"
 
@@ -292,3 +303,13 @@ def groups(tier):
     for kind in ("Line", "Plane"):
         gs.append(Group("HalfLine in %s" % kind, h_halfline_in_flat(kind), ["Geometry3D.geometry.halfline:HalfLine.in_"], stubs=ex, world="COORD", timeout_s=300))
     return gs
+
+
+def bounded(tier, seed):
+    from g3dvc import bounded as B
+    return [("membership catalogue", B.membership, (seed, 48 if tier == "quick" else 600), 3000)]
+
+
+def replay_case(case):
+    from g3dvc import bounded as B
+    return B.replay_membership(case)
